@@ -404,7 +404,7 @@ def obligations(tier):
     obs = []
     KB = 8 if tier == "quick" else 12
     for k in range(KB):
-        obs.append(Ob("big/fp/s%02dof%02d" % (k, KB), A.run_obligation(ob_big, "tactic:simplify>fpa2bv>qfbv", 90000), kind="e2",
+        obs.append(Ob("big/fp/s%02dof%02d" % (k, KB), A.run_obligation(ob_big, "tactic:simplify>fpa2bv>qfbv", 25000), kind="e2",
                       params=dict(shard=k, shards=KB, xcheck=(tier == "thorough"), xcheck_max=2), replay=replay, budget=3000,
                       bounds=dict(polygons="26 concrete polygons with edges of length 15..40 (squares, triangles, diamonds, one concave; both orientations)",
                                   point="symbolic %d-bit integer pair bounded to the bounding box +-2" % BVW,
